@@ -14,6 +14,7 @@ structure Router where
   sessRealm : List (SessKey × String) := []
   closed : Bool := false
   created : Nat := 0                            -- realms created so far (separates publication placeholders)
+  template : Option Config := none              -- `Config.RealmTemplate`: realms are created on demand from it
   deriving Inhabited
 
 inductive ROp where
@@ -83,7 +84,16 @@ def create (cfgs : List Config) : Option Router :=
 
 def step (rt : Router) : ROp → RObserved × Router
   | .join name k isLocal details roles cap =>
-    if rt.closed then ({ refused := true }, rt) else
+    if rt.closed || name == "" then ({ refused := true }, rt) else
+    -- a realm that does not exist is created from the template, if there is one
+    let rt : Router :=
+      match rt.realm? name, rt.template with
+      | none, some t =>
+        match Realm.create { t with uri := name } with
+        | some r => { rt with realms := rt.realms ++ [(name, { r with pubCount := rt.created * 1000000 })],
+                              created := rt.created + 1 }
+        | none => rt
+      | _, _ => rt
     match rt.realm? name with
     | none => ({ refused := true }, rt)
     | some r =>
